@@ -233,6 +233,11 @@ func runStreamWorld(rc *RunCtx) *Outcome {
 		entry = "Connection"
 	}
 	_, _, ref := expectedFor(stream, kind, entry == "Connection")
+	if ref.RetryOutOfBounds && entry == "Connection" {
+		// a retry value beyond the properties' bound of 10^12 ms: whether it counts as a field is left open
+		o.Inconclusive = true
+		return o
+	}
 	if ref.MaxSpan >= defaultMaxEvent-8 {
 		// beyond the default limit: C20's territory
 		o.Inconclusive = true
